@@ -590,7 +590,7 @@ fn check() {
     }
 
     let n = ctr.cases.load(Ordering::Relaxed);
-    if n < 100_000 || ctr.outcomes.len() < 15 {
+    if chk.violation_count() == 0 && (n < 100_000 || ctr.outcomes.len() < 15) {
         machinery(format!("vacuous: cases={n} outcomes={}", ctr.outcomes.len()));
     }
     let coverage = json!({
